@@ -179,18 +179,18 @@ structure Parsed where
   deriving Repr
 
 /-- Go map read `openSlots[fk]` -/
-def lookup (m : List (FlowKey × Nat)) (fk : FlowKey) : Option Nat :=
+def omLookup (m : List (FlowKey × Nat)) (fk : FlowKey) : Option Nat :=
   match m with
   | [] => none
-  | (k, v) :: rest => if k = fk then some v else lookup rest fk
+  | (k, v) :: rest => if k = fk then some v else omLookup rest fk
 
 /-- Go `delete(openSlots, fk)` -/
-def erase (m : List (FlowKey × Nat)) (fk : FlowKey) : List (FlowKey × Nat) :=
+def omErase (m : List (FlowKey × Nat)) (fk : FlowKey) : List (FlowKey × Nat) :=
   m.filter (fun kv => kv.1 ≠ fk)
 
 /-- Go `openSlots[fk] = i` -/
-def insert (m : List (FlowKey × Nat)) (fk : FlowKey) (i : Nat) : List (FlowKey × Nat) :=
-  (fk, i) :: erase m fk
+def omInsert (m : List (FlowKey × Nat)) (fk : FlowKey) (i : Nat) : List (FlowKey × Nat) :=
+  (fk, i) :: omErase m fk
 
 /-- `parsedUDP.parseTail` (after the `fix:` commit: the UDP length must *equal* the IP payload length). -/
 def parseTailUDP (ip : IPParse) (ipHdrLen : Nat) : Option Parsed :=
@@ -232,7 +232,7 @@ def Lane.sealFlow (c : Lane) (fk : FlowKey) : Lane :=
   let last := match c.lastSlot with
     | some i => if c.slotFk i = some fk then none else some i
     | none => none
-  { c with lastSlot := last, openSlots := erase c.openSlots fk }
+  { c with lastSlot := last, openSlots := omErase c.openSlots fk }
 
 /-- `addVerbatim` -/
 def Lane.addVerbatim (c : Lane) (pkt : Bytes) : Lane :=
@@ -245,22 +245,24 @@ def hasEce (f : Nat) : Bool := f / batch_tcpFlagEce % 2 = 1
 /-- `flags &^ (tcpFlagAck|tcpFlagPsh|tcpFlagEce) != 0`: any of FIN/SYN/RST (bits 0–2), URG (bit 5), CWR (bit 7). -/
 def hasOther (f : Nat) : Bool := f % 8 ≠ 0 ∨ f / 32 % 2 = 1 ∨ f / 128 % 2 = 1
 
+/-- the slot `seed` creates -/
+def seedSlot (tcp : Bool) (pkt : Bytes) (info : Parsed) : Slot :=
+  { verbatim := false, rawPkt := pkt, hdrLen := info.hdrLen, ipHdrLen := info.ipHdrLen,
+    isV6 := info.fk.isV6, fk := info.fk, gsoSize := info.payLen, numSeg := 1, totalPay := info.payLen,
+    nextSeq := if tcp then (info.seq + info.payLen) % 4294967296 else 0
+    payIovs := [slice pkt info.hdrLen (info.hdrLen + info.payLen)], ghost := [pkt] }
+
 /-- `seed` -/
 def Lane.seed (tcp : Bool) (c : Lane) (pkt : Bytes) (info : Parsed) : Lane :=
   if info.hdrLen + info.payLen > (if tcp then batch_tcpCoalesceBufSize else batch_udpCoalesceBufSize) then
     (c.sealFlow info.fk).addVerbatim pkt
   else
-    let s : Slot := {
-      verbatim := false, rawPkt := pkt, hdrLen := info.hdrLen, ipHdrLen := info.ipHdrLen,
-      isV6 := info.fk.isV6, fk := info.fk, gsoSize := info.payLen, numSeg := 1, totalPay := info.payLen,
-      nextSeq := if tcp then (info.seq + info.payLen) % 4294967296 else 0
-      payIovs := [slice pkt info.hdrLen (info.hdrLen + info.payLen)], ghost := [pkt] }
     let i := c.slots.length
-    let c := { c with slots := c.slots ++ [s] }
+    let c := { c with slots := c.slots ++ [seedSlot tcp pkt info] }
     if tcp ∧ hasPsh info.flags then
       c.sealFlow info.fk
     else
-      { c with openSlots := insert c.openSlots info.fk i, lastSlot := some i }
+      { c with openSlots := omInsert c.openSlots info.fk i, lastSlot := some i }
 
 /-- `udpHeadersMatch` / `headersMatch` -/
 def headersMatch (tcp : Bool) (a b : Bytes) (isV6 : Bool) (ipHdrLen : Nat) : Bool :=
@@ -315,8 +317,8 @@ def Lane.commitParsed (tcp : Bool) (c : Lane) (pkt : Bytes) (info : Parsed) : La
   else
     let open_ : Option Nat :=
       match c.lastSlot with
-      | some i => if c.slotFk i = some info.fk then some i else lookup c.openSlots info.fk
-      | none => lookup c.openSlots info.fk
+      | some i => if c.slotFk i = some info.fk then some i else omLookup c.openSlots info.fk
+      | none => omLookup c.openSlots info.fk
     match open_ with
     | some i =>
       match c.slots[i]? with
